@@ -102,6 +102,9 @@ def collect_histories(ctx, vh):
     bfs = drop_prefixes([v for v in r.values if isinstance(v, dict) and "steps" in v])
     notes["bfs_depth"] = depth
     notes["bfs_pool_states"] = r.distinct
+    notes["bfs_histories_generated"] = len(bfs)
+    if tier == "quick":
+        bfs = bfs[seed % 2::2]      # the quick tier executes a seed-rotated half of them; thorough all
     notes["bfs_histories"] = len(bfs)
     for h in bfs:
         h["tag"] = "bfs"
